@@ -167,6 +167,32 @@ fn foreign_kinds(auth_magic: u16) -> Vec<(String, WMessage)> {
     bodies.into_iter().map(|b| (format!("foreign-magic {}", KIND_NAMES[b.kind() as usize]), WMessage { magic: m, body: b })).collect()
 }
 
+/// The decoded length a run-length stream announces (saturating; a truncated varint ends the walk).
+fn announced_len(data: &[u8]) -> u64 {
+    let (mut off, mut total) = (0usize, 0u64);
+    while off < data.len() {
+        let (mut v, mut sh) = (0u64, 0u32);
+        loop {
+            let Some(&b) = data.get(off) else { return total };
+            off += 1;
+            if sh < 63 {
+                v |= u64::from(b & 127) << sh;
+            }
+            sh += 7;
+            if b & 128 == 0 {
+                break;
+            }
+        }
+        let rep = v & 1 == 1;
+        let run = if rep { v >> 2 } else { v >> 1 };
+        total = total.saturating_add(run);
+        if !rep {
+            off = off.saturating_add(run as usize);
+        }
+    }
+    total
+}
+
 fn payload_words(max_len: usize) -> Vec<Vec<u8>> {
     let mut v = vec![vec![]];
     if max_len >= 1 {
@@ -207,6 +233,9 @@ pub fn c08() -> i32 {
     // handshake, the running phase and the phase after a disconnect)
     let payloads: Vec<Vec<u8>> = { let mut p = payload_words(1); p.extend(structured_payloads()); p };
     let payloads2: Vec<Vec<u8>> = if t { let mut p = payload_words(2); p.extend(structured_payloads()); p } else { payloads.clone() };
+    // run-length streams of several runs (each run and their mixtures from the decoder sweep's
+    // structured family) whose announced total stays below 512 MiB, at one round of each base
+    let multi: Vec<Vec<u8>> = crate::props::codec::structured_family().into_iter().filter(|p| announced_len(p) <= 512 << 20).collect();
     let mut scns: Vec<Scenario> = Vec::new();
     let mut n_forged = 0usize;
     let mut states = Vec::new();
@@ -261,7 +290,12 @@ pub fn c08() -> i32 {
             let old_auth = inputs.iter().rev().find(|p| p.0 <= r - 3);
             let mut forged: Vec<(String, WMessage)> = Vec::new();
             let big = t && Some(&r) == rounds.get(1) && base.specs.is_empty() && base.peers[0].window == 2;
-            let payloads = if big { &payloads2 } else { &payloads };
+            let with_multi = Some(&r) == rounds.get(1) && base.specs.is_empty() && base.peers[0].window == 2;
+            let mut pl: Vec<Vec<u8>> = if big { payloads2.clone() } else { payloads.clone() };
+            if with_multi {
+                pl.extend(multi.iter().cloned());
+            }
+            let payloads = &pl;
             if let Some((_, m)) = auth {
                 forged.extend(forgeries(m, base.num_players, payloads));
                 if let Some((_, om)) = old_auth {
@@ -317,7 +351,7 @@ pub fn c08() -> i32 {
     for s in scns.iter().step_by((n / 5).max(1)).take(5) {
         rep.samples.push(json!({"scenario": s.name, "forged_packet": s.inject[0].msg, "to": s.inject[0].to, "from": s.inject[0].from, "round": s.inject[0].round, "before_authentic": s.inject[0].before}));
     }
-    rep.absorb("live injection: one forged packet per run", out, &props, json!({"k": 0, "scenarios": n, "forged_packets": n_forged, "payload_strings_every_round": payloads.len(), "payload_strings_at_three_states": payloads2.len(), "protocol_states": states}));
+    rep.absorb("live injection: one forged packet per run", out, &props, json!({"k": 0, "scenarios": n, "forged_packets": n_forged, "payload_strings_every_round": payloads.len(), "payload_strings_at_three_states": payloads2.len(), "multi_run_payload_strings_at_one_round_per_base": multi.len(), "protocol_states": states}));
     // two injections (thorough): pairs of structurally different forgeries at two rounds
     if t {
         let mut scns2 = Vec::new();
